@@ -69,8 +69,18 @@ enum Mode { New, From,
     /// `Response::with_stream` over a Stream of a *user type* implementing `sse::Data` (its `encode` returns the text as it is)
     UserData,
     /// `Response::set_stream_raw`: a boxed Stream of `String`, no `sse::Data` in between
-    Raw }
-impl Mode { fn name(self) -> &'static str { match self { Mode::New => "new", Mode::From => "from", Mode::UserData => "user-data", Mode::Raw => "raw" } } }
+    Raw,
+    /// a response that already carries a stream (`with_stream` of a one-message stream) whose stream the handler then replaces
+    /// (`set_stream`): only the messages of the second stream are owed, framed as any other stream
+    Replaced }
+impl Mode { fn name(self) -> &'static str { match self { Mode::New => "new", Mode::From => "from", Mode::UserData => "user-data", Mode::Raw => "raw", Mode::Replaced => "replaced" } } }
+
+/// the stream that `Mode::Replaced` puts into the response first
+struct OneMsg(Option<Msg>);
+impl ohkami::util::Stream for OneMsg {
+    type Item = Msg;
+    fn poll_next(mut self: Pin<&mut Self>, _cx: &mut Context<'_>) -> Poll<Option<Msg>> { Poll::Ready(self.0.take()) }
+}
 
 /// a user's message type
 struct Msg(String);
@@ -98,7 +108,7 @@ impl Case {
         else { json!({"mode": self.mode.name(), "messages": self.messages, "gaps": self.gaps_string(), "writer": WRITERS[self.writer].1}) }
     }
     fn from_json(v: &Value) -> Result<Case, String> {
-        let mode = match v["mode"].as_str() { Some("new") => Mode::New, Some("from") => Mode::From, Some("user-data") => Mode::UserData, Some("raw") => Mode::Raw, o => return Err(format!("mode {o:?}")) };
+        let mode = match v["mode"].as_str() { Some("new") => Mode::New, Some("from") => Mode::From, Some("user-data") => Mode::UserData, Some("raw") => Mode::Raw, Some("replaced") => Mode::Replaced, o => return Err(format!("mode {o:?}")) };
         let messages: Vec<String> = v["messages"].as_array().ok_or("messages")?.iter()
             .map(|m| m.as_str().map(str::to_string).ok_or("message is not a string")).collect::<Result<_, _>>()?;
         let gaps: Vec<Gap> = v["gaps"].as_str().ok_or("gaps")?.chars().map(|c| Gap::from_letter(c).ok_or("gap letter")).collect::<Result<_, _>>()?;
@@ -225,6 +235,11 @@ async fn handler() -> ohkami::Response {
     match mode {
         Mode::UserData => return ohkami::Response::OK().with_stream(AsMsg(ScriptedStream { steps: steps.into(), slot, self_yielded: false, registered: false })),
         Mode::Raw => { let mut res = ohkami::Response::OK(); res.set_stream_raw(Box::pin(ScriptedStream { steps: steps.into(), slot, self_yielded: false, registered: false })); return res }
+        Mode::Replaced => {
+            let mut res = ohkami::Response::OK().with_stream(OneMsg(Some(Msg("message of the stream that was replaced".into()))));
+            res.set_stream(AsMsg(ScriptedStream { steps: steps.into(), slot, self_yielded: false, registered: false }));
+            return res
+        }
         _ => {}
     }
     let stream: DataStream = match mode {
@@ -240,7 +255,7 @@ async fn handler() -> ohkami::Response {
             lock(&slot).finished = true;
         }),
         Mode::From => DataStream::from(ScriptedStream { steps: steps.into(), slot, self_yielded: false, registered: false }),
-        Mode::UserData | Mode::Raw => unreachable!(),
+        Mode::UserData | Mode::Raw | Mode::Replaced => unreachable!(),
     };
     stream.into_response()
 }
@@ -381,6 +396,7 @@ fn schedule_feature(case: &Case) -> &'static str {
         Mode::From => if pending_anywhere { "from-stream-pending" } else { "from-stream" },
         Mode::UserData => if pending_anywhere { "user-data-stream-pending" } else { "user-data-stream" },
         Mode::Raw => if pending_anywhere { "raw-stream-pending" } else { "raw-stream" },
+        Mode::Replaced => if pending_anywhere { "replaced-stream-pending" } else { "replaced-stream" },
         Mode::New => {
             let burst = k >= 2 && case.gaps[1..k].iter().any(|g| *g == Gap::None);
             if burst { "burst" }
@@ -726,9 +742,9 @@ pub fn run(ctx: &mut Ctx) {
             let messages: Vec<String> = toks.iter().map(|t| alphabet[*t].to_string()).collect();
             // (the two entry points that do not pass through the built-in `sse::Data` impls take the gap vectors without Pending
             //  only plus the first with Pending: their drain path is `from`'s, what differs is who prepares the text)
-            for mode in [Mode::New, Mode::From, Mode::UserData, Mode::Raw] {
+            for mode in [Mode::New, Mode::From, Mode::UserData, Mode::Raw, Mode::Replaced] {
                 for (gi, gaps) in vectors[k].iter().enumerate() {
-                    if matches!(mode, Mode::UserData | Mode::Raw) && gi > 1 { continue }
+                    if matches!(mode, Mode::UserData | Mode::Raw | Mode::Replaced) && gi > 1 { continue }
                     for writer in 0..WRITERS.len() {
                         let case = Case { mode, messages: messages.clone(), gaps: gaps.clone(), writer, tcp: false };
                         check_case(ctx, &mut stats, &router, &case);
